@@ -19,7 +19,7 @@ PrecChoices  == IF Tier = "quick" THEN {<<>>, <<".", "1">>, <<".", "*">>, <<".",
                 ELSE {<<>>, <<".", "1">>, <<".", "1", "$">>, <<".", "a", "$">>, <<".", "*">>, <<".", "0">>}
 TypeChoices  == {<<>>, <<"?">>, <<"x", "?">>, <<"X", "?">>, <<"o">>, <<"x">>, <<"X">>, <<"p">>, <<"b">>,
                  <<"e">>, <<"E">>}
-WsChoices    == IF Tier = "quick" THEN {<<>>, <<" ">>} ELSE {<<>>, <<" ">>, <<" ", "T">>}
+WsChoices    == IF Tier = "quick" THEN {<<>>, <<" ">>, <<"W3">>} ELSE {<<>>, <<" ">>, <<" ", "T">>, <<"W3">>, <<"T", "W3", " ">>}
 \* context: what surrounds the placeholder
 Contexts     == IF Tier = "quick" THEN {"bare", "second"}
                 ELSE {"bare", "text", "esc", "second", "star_first"}
